@@ -576,8 +576,19 @@ def pair_traces(pack0, extras, estimator, seed, pis, **kw):
         sc1 = dict(sc)
         sc1["units"] = list(sc["units"]) + [x]
         pack1.append(sc1)
-    c0, res0, meta0, _ = run_pack(pack0, estimator, seed, pis=pis, shuffle=False, **kw)
-    c1, res1, meta1, _ = run_pack(pack1, estimator, seed, pis=pis, shuffle=False, **kw)
+    # the second run is the caller's NEXT POLL: it is handed the frame object the first run was handed, with the new row
+    # added - whatever the first run wrote into the caller's frame (derived results columns) is still there and is
+    # missing for the new row (ClientHistory.tla, switch FeedCopied; seeded change C11_J).  On a tree that leaves the
+    # caller's frame alone this is exactly the materialised second feed.
+    fkw = {k: kw[k] for k in ("ballast_rep", "ballast_non", "high_pev") if k in kw}
+    pre0, cur0, m0 = materialise(pack0, seed, shuffle=False, **fkw)
+    c0, res0, meta0, _ = run_pack(pack0, estimator, seed, pis=pis, shuffle=False, frames=(pre0, cur0, m0), copy_feed=False, **kw)
+    pre1, cur1, m1 = materialise(pack1, seed, shuffle=False, **fkw)
+    left = [c for c in cur0.columns if c not in cur1.columns]
+    if left:
+        keys = ["postal_code", "geographic_unit_fips"]
+        cur1 = cur1.merge(cur0[keys + left].drop_duplicates(keys), on=keys, how="left")
+    c1, res1, meta1, _ = run_pack(pack1, estimator, seed, pis=pis, shuffle=False, frames=(pre1, cur1, m1), copy_feed=False, **kw)
     t0 = trace_of(pack0, res0, meta0, estimator, pis)
     t1 = trace_of(pack1, res1, meta1, estimator, pis)
     out = []
